@@ -1,7 +1,8 @@
 ---------------------------- MODULE Trace_CallLib ----------------------------
 (* Validates behaviours recorded from real libraries (C33) against the library machine
    CallLib: JSON = [lib |-> [G, K], traces |-> <<trace>>], a trace = [id, build, init (cells),
-   events]; an event = [op, i, v, expect, obs |-> [exc, ret]] (+ "static" events whose obs must
+   events]; an event = [op, i, v, expect, obs |-> [exc, ret]]; result-object events [op, j, k, f, v / vs,
+   expect, obs] (CallLib: mk, rdobj, wrobj, passobj, same, drop) (+ "static" events whose obs must
    equal the reference ref: names exposed, sizeof/offsetof measured by gcc).
    The machine is stepped through every trace; output <<"VERDICT", trace id, position, clause>>
    for the first event of a trace whose observation breaks the machine ("exc", "ret",
@@ -12,22 +13,28 @@ VARIABLES i
 Data == JsonDeserialize(IOEnv.TRACE_FILE)
 
 RECURSIVE Run(_, _, _, _, _)
+\* L = the library [G, K, R]; S = [st |-> global cells, objs |-> kept result objects]
 \* returns <<>> if events pos.. are all accepted, else <<pos, clause>>
-Run(G, K, evs, pos, st) ==
+Run(L, K, evs, pos, S) ==
     IF pos > Len(evs) THEN <<>>
     ELSE LET e == evs[pos] IN
          IF e.op = "static"
-         THEN (IF e.obs = e.ref THEN Run(G, K, evs, pos + 1, st) ELSE <<pos, "static">>)
-         ELSE LET r == Step(G, K, st, e) IN
+         THEN (IF e.obs = e.ref THEN Run(L, K, evs, pos + 1, S) ELSE <<pos, "static">>)
+         ELSE LET r == IF e.op \in ObjOps
+                       THEN LET o == ObjStep(L.R, S.objs, e, "faithful") IN
+                            [S |-> [st |-> S.st, objs |-> o.objs], exc |-> o.exc, ret |-> o.ret]
+                       ELSE LET g == Step(L.G, K, S.st, e) IN
+                            [S |-> [st |-> g.st, objs |-> S.objs], exc |-> g.exc, ret |-> g.ret]
+              IN
               IF e.expect # "?" /\ r.exc # e.expect THEN <<pos, "expect">>
               ELSE IF e.obs.exc # r.exc THEN <<pos, "exc">>
               ELSE IF r.exc = "" /\ ~PyEq(e.obs.ret, r.ret) THEN <<pos, "ret">>
-              ELSE Run(G, K, evs, pos + 1, r.st)
+              ELSE Run(L, K, evs, pos + 1, r.S)
 
 CheckAll == LET D == Data IN
             /\ \A j \in 1..Len(D.traces) :
                   LET t == D.traces[j]
-                      v == Run(D.lib.G, D.lib.K, t.events, 1, t.init)
+                      v == Run(D.lib, D.lib.K, t.events, 1, [st |-> t.init, objs |-> <<>>])
                   IN IF v # <<>> THEN PrintT(<<"VERDICT", t.id, v[1], v[2]>>) ELSE TRUE
             /\ PrintT(<<"CHECKED", Len(D.traces)>>)
 TInit == i = 0 /\ (CheckAll = TRUE)
